@@ -215,6 +215,27 @@ func VerifConnCounts(s *Server) (count int, inMap int) {
 
 // ---- connection loop on a caller-supplied connection (C11, C19: peers with chosen addresses, several
 // identities on one connection) ----
+// VerifInForce reads the settings the components actually work with (C24: GetExportOptions reports the configuration
+// in force): attribute-cache capacity and TTL, directory-cache capacity and TTL (0 when there is none), worker count.
+func VerifInForce(n *AbsfsNFS) (attrMax int, attrTTL time.Duration, dirMax int, dirTTL time.Duration, workers int) {
+	if c := n.attrCache; c != nil {
+		c.mu.RLock()
+		attrMax, attrTTL = c.maxSize, c.ttl
+		c.mu.RUnlock()
+	}
+	if d := n.dirCache; d != nil {
+		d.mu.RLock()
+		dirMax, dirTTL = d.maxEntries, d.timeout
+		d.mu.RUnlock()
+	}
+	if p := n.workerPool; p != nil {
+		p.resizeMu.Lock()
+		workers = p.maxWorkers
+		p.resizeMu.Unlock()
+	}
+	return
+}
+
 // VerifServeConnTimeouts runs the real record-marking connection loop on conn with the given read/write timeouts
 // instead of the built-in 30 s (C28: a connection in continuous use outlives any number of read timeouts).
 func VerifServeConnTimeouts(s *Server, h *NFSProcedureHandler, conn net.Conn, readTimeout, writeTimeout time.Duration) {
